@@ -232,9 +232,51 @@ def rule_r4(ctx: Ctx) -> None:
     ctx.check(bool(first_reads) and all(x is A1 for x in first_reads) and R.names_of(out["result"].direct) == [A1.label], nsr.short, "two objects for one path: read %s" % sorted({("first" if x is A1 else "second") for x in first_reads}), "one definition object (and therefore one cached type) per file path", nsr.where())
 
 
+def rule_r5_lookup_from_directories(ctx: Ctx) -> None:
+    """R1 decides what the resolver does with the lookup list it is given.  This rule decides what it is given: the definitions
+    the entry points construct from directories and files (an abstract file system of syntactic paths; the definition objects
+    are built by their own constructor, and the containers of the evaluated program compare and hash them by the class's own
+    __eq__ / __hash__, i.e. by name and version).  Two files of one directory that spell the same name and version must both
+    arrive - only then is a reference to them a collision rather than an arbitrary choice."""
+    from ..absint import APath, Raised, call_fn
+    from ..fold import Unfoldable
+
+    ctx.rule("C09.R5", "the lookup list constructed from directories / files holds one definition per file - files of one directory (or of two) that spell the same name and version are all there - and a reference to such a name and version, resolved against that list, is a DataTypeCollisionError", min_instances=2)
+    cons = ctx.func("_namespace._construct_dsdl_definitions_from_namespaces")
+    mod = cons.module
+    worlds = {
+        "a port-ID prefix on one copy": ["/w/ns/A.1.0.dsdl", "/w/ns/sub/Foo.1.0.dsdl", "/w/ns/sub/7509.Foo.1.0.dsdl", "/w/ns/sub/Foo.1.1.dsdl"],
+        "legacy suffix next to the current one": ["/w/ns/A.1.0.dsdl", "/w/ns/sub/Foo.1.0.dsdl", "/w/ns/sub/Foo.1.0.uavcan", "/w/ns/sub/Foo.1.1.dsdl"],
+        "two directories": ["/w/ns/A.1.0.dsdl", "/w/ns/sub/Foo.1.0.dsdl", "/elsewhere/ns/sub/Foo.1.0.dsdl", "/w/ns/sub/Foo.1.1.dsdl"],
+    }
+    saved = list(APath.FS)
+    try:
+        for label, files in worlds.items():
+            APath.FS = list(files)
+            hook = R._hook(ctx, mod, [], record=[], results={"dsdl_file_sort": lambda xs: list(xs), "file_sort": lambda xs: list(xs)})
+            roots = [APath("/w/ns")] + ([APath("/elsewhere/ns")] if label == "two directories" else [])
+            try:
+                got = call_fn(ctx, cons, [roots], hook=hook, keep=tuple(mod.functions))
+            except (Raised, Unfoldable) as ex:
+                raise AnalysisError("%s: cannot evaluate over the abstract file system: %s" % (cons.short, ex))
+            got = list(got)
+            paths = sorted(str(d.file_path if hasattr(d, "file_path") else d._file_path) for d in got)
+            ctx.count()
+            listed = paths == sorted(files)
+            # the same list, given to a builder: the twins are a collision, the single 1.1 resolves
+            w = R.World()
+            referrer = R.ADef(w, "ns.A", 1, 0)
+            out = R.resolve(ctx, referrer, got, "ns.sub.Foo", 1, 0)
+            ctx.count()
+            ctx.check(listed and out["raised"] == "DataTypeCollisionError", cons.short + " -> DataTypeBuilder.resolve_versioned_data_type", label, "two definitions with the same name and version are reported (DataTypeCollisionError), not resolved arbitrarily: both reach the lookup list", cons.where(), {"files": files, "definitions constructed": paths, "reference ns.sub.Foo.1.0": out["raised"] or "resolved to %r" % getattr(out["result"], "label", out["result"])})
+    finally:
+        APath.FS = saved
+
+
 def run(ctx: Ctx) -> None:
     ctx.attempt(rule_r1_r2, ctx)
     ctx.attempt(rule_r3, ctx)
     ctx.attempt(rule_r4, ctx)
+    ctx.attempt(rule_r5_lookup_from_directories, ctx)
     ctx.assume("the lookup list handed to the builder is finite; the builder forwards its lookup list unchanged (R1) and read() removes the definition itself (R3), so the list strictly shrinks along any reference chain")
     ctx.undecided("equality of the nested type with a stand-alone read for all graphs and visiting orders (depends on run-time lookup contents)")
